@@ -156,6 +156,8 @@ type HistOpts struct {
 	OrderDance int // percent of blocks that contain a fill-then-cancel pair on a committed order
 	Warmup    int  // empty blocks (all validators sign, no evidence, no txs) before the generated ones: leaves the initial grace period
 	DupByzPct int  // percent chance that an evidence entry is delivered twice in the same block
+	RankDance  int // percent of transaction slots used for traffic around rank 100 of the candidates (txgen_extra.go)
+	OwnerDance int // percent of transaction slots used for ticker hand-overs and their follow-ups (txgen_extra.go)
 }
 
 // Hist is a running history.
@@ -185,6 +187,7 @@ type Hist struct {
 	PrevSet map[types.Pubkey]bool           // validator set of the previous height (the one that signed LastCommitInfo)
 	DebugHook func(*GenTx)
 	PKs    map[types.Pubkey]bool // candidate public keys that ever appeared (block-list universe)
+	Dance  *danceState           // memory of the scenario generators (txgen_extra.go)
 }
 
 var burnAddr = types.HexToAddress("Mx00cedde786b34d733d1dc96559253081572df2c6")
@@ -246,6 +249,7 @@ func NewHist(o HistOpts, sink *Sink) (*Hist, error) {
 	// InitChain ends with updateValidators(): the validators in memory already carry the recalculated stakes
 	// that reach the disk only with the first Commit. Give the driver the live view before the first BeginBlock.
 	h.sendLive("S live")
+	h.tieStats() // world_ties.go: evidence that the equal-stake boundary scenarios were reached
 	return h, nil
 }
 
@@ -750,6 +754,8 @@ func (h *Hist) Block() bool {
 			note := g.Note
 			g = h.G.Build(g.Type, g.Data, g.Sender, g.GasCoin, func(t *tx.Transaction) { t.GasPrice = 1; t.Payload = nil; t.ServiceData = nil })
 			g.Note = note
+		} else if q := h.extraTxs(height); len(q) > 0 { // scenario generators of the profile (txgen_extra.go)
+			g, queue = q[0], q[1:]
 		} else {
 			g = h.G.Next(height)
 		}
@@ -873,6 +879,7 @@ func (h *Hist) Block() bool {
 	h.begun = false
 	h.sendFull("S commit")
 	if h.O.Restarts > 0 && n.Disk && h.RRng.Intn(100) < h.O.Restarts {
+		before := h.liveProjection() // what the process that is about to stop holds in memory (restartlive.go)
 		k := 1 + h.RRng.Intn(2)
 		for i := 0; i < k; i++ {
 			if err := n.Restart(); err != nil {
@@ -885,6 +892,7 @@ func (h *Hist) Block() bool {
 		h.Stats["restart"] += k
 		h.S.Op(fmt.Sprintf("R h=%d n=%d", height, k))
 		h.sendFull("S restart")
+		h.restartLive(before)
 	}
 	return true
 }
